@@ -2173,6 +2173,11 @@ class Controller:
                                          "\"False\". Instead this reference resolved to \"%s\"" % (
                                              state['currentCondition'], original
                                          ))
+                    elif do_next_iter == 'true' and self.stop_executing:
+                        # VV: The controller has been asked to stop (e.g. kill_all_components()): nothing would ever
+                        #     submit or shutdown the components of a new iteration and the stage would never complete
+                        self.log.info("Condition %s resolved to True but the controller is stopping - will not create "
+                                      "a new iteration for DoWhile loop %s" % (state['currentCondition'], dw_name))
                     elif do_next_iter == 'true':
                         self.log.info("Condition %s resolved to True, will add new iteration %d" % (
                             state['currentCondition'], state['currentIteration'] + 1))
